@@ -45,7 +45,22 @@ def boundary(u, t):
     return dt.datetime(t.year, 1, 1)
 
 
+class Stamp(dt.datetime):
+    """An instant handed over as an instance of a datetime subclass (pandas.Timestamp-like, or a user's own class)."""
+
+
+def as_stamp(t):
+    return Stamp(t.year, t.month, t.day, t.hour, t.minute, t.second, t.microsecond)
+
+
+_CALLS = [0]
+
+
 def call(u, op, t, k=0, t1=None, step=1):
+    _CALLS[0] += 1
+    if _CALLS[0] % 5 == 0:          # every fifth call passes subclass instances: they are instants like any other
+        t = as_stamp(t)
+        t1 = as_stamp(t1) if t1 else t1
     rec = {"u": u, "op": op, "t": proj(t)[:2], "civ": civ(t), "k": k, "t1": proj(t1)[:2] if t1 else [0, 0], "step": step,
            "out": [0, 0, 0], "outs": [], "err": ""}
     iv = d3_time[u]
